@@ -53,7 +53,9 @@ def single_transmissions(rng, n, masks=None, corrupt_always=False, family="singl
             exp["eom"] = 1 if tb >= 2 else None
         # F2: SOM re-accepted from [H, H3, N1] is still pending when [H3, N1, N2] establishes the EOM, and no N3 follows
         known = None
-        if G < 1.31 and hb == 2 and (hmask >> 2) & 1 and ((mask >> 3) & 3) == 0b11 and not corrupt:
+        # (the header burst that is not intact may be absent or present-but-corrupted: a corrupted burst in the history changes
+        # nothing about when the StartOfMessage is re-accepted)
+        if G < 1.31 and hb == 2 and (hmask >> 2) & 1 and ((mask >> 3) & 3) == 0b11:
             known = "F2"
         out.append(Scen(family, bursts, exp, known, {"mask": format(mask, "06b")[::-1], "gap_ht": G, "pause": pause, "hlen": len(H), "corrupt": bool(corrupt)}))
     return out
